@@ -361,11 +361,16 @@ def run(ctx):
     # stop() with a backlog
     for W, units in [(2, [(1, 0)] * 4 + [(1, 1)] + [(1, 0)] * 2), (1, [(1, 0), (1, 1), (1, 0)])] + ([] if quick else [(3, [(1, 0)] * 10), (2, [(2, 1), (1, 0), (1, 0), (3, 0), (1, 1)])]):
         rcases.append((W, units, "stopfirst"))
-    rres = H.run_many(runner_case, rcases, jobs=8, timeout=300)
+    rres = H.run_many(runner_case, rcases, jobs=8, timeout=90)
     reqs, keep = [], []
     for case, (tag, res) in zip(rcases, rres):
         W, units, _ = case
         ctx.dist(f"runner:W{W}:n{len(units)}")
+        if tag != "ok" and "timeout" in str(res):
+            ctx.violation(f"C17 statement fails on the implementation (task runner): with {W} worker(s) and units (duration, fails) {units} "
+                          f"[{case[2] or 'consumed as completed'}] the runner does not finish: results are never delivered or stop() never returns",
+                          {"rcase": case, "error": res}, found_input=True)
+            continue
         if tag != "ok":
             ctx.violation(f"harness failure on runner case {case}: {res[:300]}", {"rcase": case, "error": res}, found_input=False)
             continue
